@@ -9,8 +9,9 @@
      [one failed -> deferred]; blocks in order (stop after a failed block); post (not after a failed
      block); deferred; terminal plan write = Final.final of the image; EvRelease with the image.
    One block: Running write; bypass run; [bypassed -> Completed]; pre; initial continuous; [failed ->
-     deferred]; sequences one after another while the launch guard allows and the tolerance is not
-     exceeded; [exceeded -> deferred]; post; deferred; terminal write.
+     Failed write, deferred]; sequences one after another while the launch guard allows and the tolerance
+     is not exceeded; [exceeded -> deferred, Failed write]; post; [failed -> Failed write, deferred];
+     deferred; terminal write.
    One group run: the (Running,0) marks of ALL its actions, then action after action (Start, End, attempt
      write, again while retries remain; terminal write), then the verdict write of the group.
    One attempt whose outcome is OOverrun: the engine's deadline fires first: Start, attempt write, End. *)
@@ -99,7 +100,10 @@ Fixpoint seqs_run (o : oracle) (bs : bshape) (b q : nat) (todo : list (list nat)
       else ([], qs)
   end.
 
-(* ---- one block; result: its events and whether it ended Failed ---- *)
+(* ---- one block; result: its events and whether it ended Failed ----
+   When the block is written Failed (every state function of sm.go ends with UpdateBlock): a failed pre /
+   initial continuous run and a failed post run are persisted at once, BEFORE the deferred checks run; an
+   exceeded tolerance (ExecuteSequences has no such write) and a failed deferred run after the deferred checks. *)
 Definition block_run (o : oracle) (b : nat) (bs : bshape) : list event * bool :=
   let gs := bs_groups bs in
   let sc := SBlock b in
@@ -117,9 +121,9 @@ Definition block_run (o : oracle) (b : nat) (bs : bshape) : list event * bool :=
         (start :: tb ++ tp ++ tc ++ ts ++ td ++ [fin true], true)
       else
         let (to, vo) := opt_grp_run o sc GPost (g_post gs) in
-        let c := negb vo || negb vd in
-        (start :: tb ++ tp ++ tc ++ ts ++ to ++ td ++ [fin c], c)
-    else (start :: tb ++ tp ++ tc ++ td ++ [fin true], true).
+        if vo then (start :: tb ++ tp ++ tc ++ ts ++ to ++ td ++ [fin (negb vd)], negb vd)
+        else (start :: tb ++ tp ++ tc ++ ts ++ to ++ fin true :: td, true)
+    else (start :: tb ++ tp ++ tc ++ fin true :: td, true).
 
 (* blocks b, b+1, ... in order; stop after a failed one *)
 Fixpoint blocks_run (o : oracle) (b : nat) (bl : list bshape) : list event * bool :=
